@@ -18,6 +18,7 @@
 import IocProofs.Lemmas.M2Inv
 import IocProofs.Lemmas.SemFactory2
 import IocProofs.Lemmas.M2Lookups
+import IocProofs.Lemmas.SemAppRun
 namespace Ioc.C01
 open Ioc.M2
 
@@ -191,5 +192,15 @@ example : Lc.AllNF lazyPair (final lazyPair) [1, 2] ∧ (Lc.lookupsAfter lazyPai
     (Lc.lookupsAfter lazyPair (final lazyPair) [1, 2]).fields 2 0 = [⟨1, 1⟩] ∧
     (Lc.lookupsAfter lazyPair (final lazyPair) [1, 2]).l1 1 = some ⟨1, 1⟩ :=
   ⟨⟨NF_of_done (by decide), NF_of_done (by decide), NF_of_done (by decide)⟩, by decide, by decide, by decide⟩
+
+/-- registry.RegisterSingleton, regenerated (`Panicf` kept as a call that does not return): a new name is stored; the SAME
+    object again changes nothing; a DIFFERENT object under a name that is taken panics and the registry keeps what it had —
+    two objects never share a name, so a name never stands for two instances -/
+theorem C01_code_RegisterSingleton (nameOf : Nat → String) (i : Nat) (w : Sem.CMap) :
+    Go.run (Sem.rsPrims nameOf) Progs.sreg_RegisterSingleton [.ref i 0] w =
+      (match Sem.cmLoad w (nameOf i) with
+       | none => some (.tuple [], Sem.cmStore (nameOf i) i w)
+       | some j => if j = i then some (.tuple [], w) else none) :=
+  Sem.registerSingleton_sem nameOf i w
 
 end Ioc.C01
